@@ -13,6 +13,18 @@ from .c03 import random_state
 from .c05 import make_post_selection
 from .common import drain_into, merge_stats, setup
 
+def _sibling_predicate(style, m, n):
+    """Post-selection predicates that share one code object and differ only in what they captured."""
+    if style == "closure":
+        def on_mode(s):
+            return s[m] == n
+        return on_mode
+
+    def on_mode_d(s, m=m, n=n):
+        return s[m] == n
+    return on_mode_d
+
+
 PROPERTY = "C11"
 RULE = ("seeded random reconfiguration histories (5-40 steps) on one long-lived Sampler / QuickSampler / Analyzer: "
         "reassign circuit (other size, or same unitary with different heralds), edit circuit in place, set parameters, "
@@ -23,7 +35,8 @@ MANDATORY = ["sample_before_read:Sampler", "sample_before_read:QuickSampler", "s
              "postselection_mutated_in_place", "param_set_between_reads", "circuit_edited_between_reads",
              "source_mutated_between_reads", "backend_swapped", "input_changed", "analyze_without_expected_after_expected",
              "loss_added_in_place", "circuit_replaced_more_loss", "postselection_rule_on_ruled_mode",
-             "tiny_reconfiguration", "herald_declared_in_place", "truncated_mass_above_numpy_tolerance"]
+             "tiny_reconfiguration", "herald_declared_in_place", "truncated_mass_above_numpy_tolerance",
+             "postselection_replaced_by_sibling_from_one_factory"]
 DECIDING = ["mon.twin_distribution_reads", "mon.twin_sampling_calls", "mon.analyze_postconditions"]
 BUDGET = {"quick": 30, "thorough": 480}
 ASSUMPTIONS = ["a twin built from the current public settings is the reference; distributions compared to 1e-12, seeded "
@@ -146,7 +159,7 @@ def history(ctx, lw, rng, kind):
             reconfig += ["source_mut", "source_new", "backend", "detector", "detector_between_draws"]
             obs = ["read", "sample", "n_inputs", "n_outputs"]
         else:
-            reconfig += ["ps_new", "ps_mut", "counting"]
+            reconfig += ["ps_new", "ps_mut", "counting", "ps_sibling"]
             obs = ["read", "sample", "n_outputs"]
         if i == 0 and first:
             step = first
@@ -275,6 +288,22 @@ def history(ctx, lw, rng, kind):
                 ps_obj, _, _ = make_post_selection(lw, rng, k)
                 obj.post_select = ps_obj
                 changed_since_obs = "postselection_replaced"
+            elif step == "ps_sibling":
+                # two predicates made by ONE factory: same code object, different captured / default values
+                k = obj.circuit.input_modes
+                if k > 0:
+                    style = str(rng.choice(["closure", "default_argument"]))
+                    m1, n1 = int(rng.integers(k)), int(rng.integers(0, 3))
+                    obj.post_select = _sibling_predicate(style, m1, n1)
+                    try:
+                        _ = obj.probability_distribution if rng.random() < 0.8 else None
+                    except Exception:  # noqa: BLE001  (a predicate nothing satisfies: the replacement below is judged all the same)
+                        pass
+                    m2, n2 = (m1, (n1 + 1 + int(rng.integers(2))) % 3) if rng.random() < 0.5 else ((m1 + 1) % k, n1)
+                    obj.post_select = _sibling_predicate(style, m2, n2)
+                    trace[-1] += [style, m1, n1, m2, n2]
+                    ctx.bucket("postselection_replaced_by_sibling_from_one_factory")
+                    changed_since_obs = "postselection_replaced"
             elif step == "ps_mut":
                 ps = obj.post_select
                 if hasattr(ps, "add") and getattr(ps, "multi_rules", False):
